@@ -118,17 +118,18 @@ class SchedWorld:
         obj = tuple(obj)
         start, end, freq = win
         inst = self.objects.get(obj)
+        real_prio = prio + getattr(self, "prio_offset", 0)      # see op "prio_offset": the same order, other magnitudes
         if inst is None or self.model.systems[obj[0]] is not inst:
             # a system object that is not registered: (re)configure it
             if inst is None:
-                inst = (ScriptedCollector if obj[1] % 4 == 2 else Scripted)(self, obj, prio, start, end, freq, script)
+                inst = (ScriptedCollector if obj[1] % 4 == 2 else Scripted)(self, obj, real_prio, start, end, freq, script)
                 self.objects[obj] = inst
                 if obj[0] not in self.ids:
                     self.ids.append(obj[0])
             elif self.conf.get(obj) != (prio, start, end, freq):
                 # a changed configuration is written to the object; an unchanged one leaves the object exactly as the
                 # library left it when the system was let go
-                inst.priority, inst.start, inst.end, inst.frequency = prio, start, _end_to_py(end), freq
+                inst.priority, inst.start, inst.end, inst.frequency = real_prio, start, _end_to_py(end), freq
                 inst.script = script
             else:
                 inst.script = script
@@ -170,7 +171,7 @@ class SchedWorld:
             self.model.systems.remove_system(sid)
             self.model.systems.add_system(inst)
         self.remove(sid)
-        self.add(obj, inst.priority, (inst.start, _end_from_py(inst.end), inst.frequency), inst.script)
+        self.add(obj, inst.priority - getattr(self, "prio_offset", 0), (inst.start, _end_from_py(inst.end), inst.frequency), inst.script)
 
     def remove(self, sid, via=None):
         exc = None
@@ -272,6 +273,8 @@ def run_program(prog):
             w.churn(op[1], op[2])
         elif k == "shadow":
             w.shadow = Model()
+        elif k == "prio_offset":
+            w.prio_offset = op[1]          # every priority of this program is shifted by this constant
         else:
             raise AssertionError(op)
     return w.events
@@ -338,6 +341,10 @@ def random_program(rng, *, n_ids=5, prios=(-2, -1, 0, 1, 2), length=30, p_mut=0.
     prog = [["logger", "quiet"]] if rng.random() < 0.3 else []
     if rng.random() < 0.3:
         prog.append(["shadow"])
+    if rng.random() < 0.15 and max(abs(p) for p in prios) < 10 ** 6:
+        # arbitrary integer priorities: the same histories far away from zero, where neighbouring integers are no longer
+        # distinct as floating-point numbers
+        prog.append(["prio_offset", rng.choice([2 ** 62, -(2 ** 62), 2 ** 53, sys.maxsize - 100])])
 
     def serial_of(i):
         # mostly re-use object 1, sometimes a fresh object with the same id
